@@ -49,7 +49,9 @@ def timeline_family(seed, n):
         L = []       # declarations
         C = []       # constraints that may be reordered / read later
         if host == 'sv':
-            L.append('class Robot : StateVariable { predicate Busy(real id) { duration >= %s; } }' % f(rnd.choice([1, 3])))
+            # the state variable may also be an agent, in either order of the base types
+            bases = rnd.choice(['StateVariable', 'StateVariable', 'StateVariable, Agent', 'Agent, StateVariable'])
+            L.append('class Robot : %s { predicate Busy(real id)%s { duration >= %s; } }' % (bases, ' : Interval' if 'Agent' in bases else '', f(rnd.choice([1, 3]))))
             L.append('Robot r = new Robot();')
             new = lambda i, args: 'new r.Busy(id:%s%s)' % (f(i), (', ' + args) if args else '')
         else:
@@ -96,13 +98,13 @@ def timeline_family(seed, n):
 
 def inheritance_family():
     """predicates that reach Interval / Impulse directly, through an empty predicate, through a non-empty one, or through
-    two levels x fact / goal x direct / through a rule x hosts (plain, agent); constraints push the atom off zero"""
+    two levels x fact / goal x direct / through a rule x hosts (top level, an agent class, a plain class with origin > 0); constraints push the atom off zero"""
     out = []
     for base in ('Interval', 'Impulse'):
         for chain in ('direct', 'emptymid', 'mid', 'emptymid2', 'mid_emptymid'):
             for mode in ('fact', 'goal'):
                 for via in ('direct', 'rule'):
-                    for host in ('plain', 'agent'):
+                    for host in ('plain', 'agent', 'class'):
                         push = 'start >= 5.0; duration >= d;' if base == 'Interval' else 'at >= 3.0; d >= 0.0;'
                         midbody = ('duration >= 1.0;' if base == 'Interval' else 'at >= 1.0;')
                         decl = []
@@ -118,6 +120,9 @@ def inheritance_family():
                             decl += ['predicate Top() : %s { %s }' % (base, midbody), 'predicate Mid() : Top { }', 'predicate Leaf(real d) : Mid { %s }' % push]
                         if host == 'agent':
                             L = ['class Ag : Agent {'] + ['  ' + d for d in decl] + ['}', 'Ag ag = new Ag();']
+                            new = 'new ag.Leaf(d:3.0)'
+                        elif host == 'class':      # a plain class (no smart type among its ancestors) declaring the predicates
+                            L = ['class Lab {'] + ['  ' + d for d in decl] + ['}', 'Lab ag = new Lab();', 'origin == 2.0;']
                             new = 'new ag.Leaf(d:3.0)'
                         else:
                             L = list(decl)
